@@ -539,7 +539,7 @@ Qed.
       when allocations fail                                                *)
 
 Lemma ck_alg_cipher_key a k key : ck_alg (cipher_key a k key) = a.
-Proof. unfold cipher_key. destruct (a =? SRTP_NULL_CIPHER_c); reflexivity. Qed.
+Proof. unfold cipher_key. destruct (a =? SRTP_NULL_CIPHER_c); [reflexivity|]. destruct (is_gcm_alg a); reflexivity. Qed.
 
 Definition alg_rtp p := cipher_alg_of (cp_cipher (p_rtp p)) (cp_keylen (p_rtp p)).
 Definition alg_rtcp p := cipher_alg_of (cp_cipher (p_rtcp p)) (cp_keylen (p_rtcp p)).
@@ -622,7 +622,9 @@ Proof.
   induction n as [|n IH]; intros o w w' o' H; cbn [alloc_xtn_ciphers] in H.
   - unfold ret in H. injection H as _ <-. lia.
   - apply bind_inv in H. destruct H as [(o1 & w1 & H1 & H)|(? & _ & ?)]; [|discriminate].
-    apply alloc_cipher_val in H1. apply IH in H. unfold cb_rtp, alg_rtp in *. lia.
+    apply alloc_cipher_val in H1. apply IH in H.
+    change (xtn_cipher_id p) with (cp_cipher (p_rtp p)) in H1. change (xtn_cipher_klen p) with (cp_keylen (p_rtp p)) in H1.
+    unfold cb_rtp, alg_rtp in *. lia.
 Qed.
 
 Lemma stream_alloc_val p w w' o :
@@ -659,7 +661,7 @@ Lemma init_keys_inv p ms km o w w' k o' :
   init_keys p ms km o w = (w', inl (k, o')) ->
   h_live (w_h w') = h_live (w_h w) + (if ms =? 0 then 0 else 1) /\ key_ok p ms k.
 Proof.
-  unfold init_keys. intros H.
+  unfold init_keys. change derive_keys_any with derive_keys. intros H.
   apply bind_inv in H. destruct H as [(o1 & w1 & H1 & H)|(? & _ & ?)]; [|discriminate].
   assert (L1 : h_live (w_h w1) = h_live (w_h w) + (if ms =? 0 then 0 else 1)).
   { destruct (ms =? 0); cbn [negb] in H1.
